@@ -45,6 +45,17 @@ def oracle(v, base, rr):
     return None
 
 
+def minimal_prefix(ctx, b, lib, seq_texts, target, v, base):
+    """smallest single earlier file after which the violated file is read wrongly (else the whole sequence)"""
+    for j, txt in enumerate(seq_texts):
+        p = os.path.join(ctx.work, f"seq-{j}.p21")
+        open(p, "w", encoding="latin-1").write(txt)
+        r = R.run_real(b, lib, [(p, 60), target], ctx.work, rewrite=False)
+        if len(r) == 2 and not r[1].died and oracle(v, base, r[1]):
+            return [txt]
+    return seq_texts
+
+
 def compare(v, rr, mr):
     if mr.stop:
         return "model: " + mr.stop
@@ -67,8 +78,10 @@ def evaluate(ctx, b, lib, model_exe, n_pops, per_class):
     sch = lib.schema
     items = []     # (violation, text, base index)
     bases = []
-    for _ in range(n_pops):
-        pop = W.gen_population(rng, sch, rng.randint(4, 9))
+    pops = [W.gen_population(rng, sch, rng.randint(4, 9)) for _ in range(n_pops)]
+    if "rf_e" in sch.by_name:
+        pops.insert(0, W.ref_population(sch))       # references to complex instances through every part
+    for pop in pops:
         bases.append((pop, W.render_file(sch.name, pop)))
         for v in W.violations(rng, sch, pop, per_class):
             items.append((v, W.render_violation(sch.name, v), len(bases) - 1))
@@ -96,6 +109,18 @@ def evaluate(ctx, b, lib, model_exe, n_pops, per_class):
         ctx.hist("violation classes", v.cls)
         ctx.hist("positions", v.detail.split(":")[0])
         res = oracle(v, base, rr)
+        if res and not rr.died:
+            # was it the file, or what the process had read before it?  (several files per process is part of "all inputs")
+            fresh = R.run_real(b, lib, [files[nb + k]], ctx.work, rewrite=False)[0]
+            if not oracle(v, base, fresh):
+                seq = [bases[j][1] for j in range(nb)] + [items[j][1] for j in range(k)]
+                ctx.hist("interference", v.cls)
+                ctx.violation(f"interference:{v.cls}", res[1] + " — but only when the file is read after other files by the same "
+                              "process (a fresh process reports it): state carried from one read to the next",
+                              {"schema": lib.express, "file": text, "class": v.cls, "victim": v.victim,
+                               "not_claimed": sorted(v.skip_confine), "conforming_file": bases[bi][1],
+                               "read_before": minimal_prefix(ctx, b, lib, seq, files[nb + k], v, base)})
+                res = None
         if res:
             stat["oracle_failures"] += 1
             kind, what = res
@@ -170,7 +195,13 @@ def replay(ctx, path):
     pb, pv = os.path.join(wd, "base.p21"), os.path.join(wd, "viol.p21")
     open(pb, "w", encoding="latin-1").write(r["conforming_file"])
     open(pv, "w", encoding="latin-1").write(r["file"])
-    base, rr = R.run_real(b, lib, [(pb, 40), (pv, 40)], wd, rewrite=False)
+    pre = []
+    for j, txt in enumerate(r.get("read_before", [])):
+        pj = os.path.join(wd, f"before-{j}.p21")
+        open(pj, "w", encoding="latin-1").write(txt)
+        pre.append((pj, 60))
+    res_all = R.run_real(b, lib, [(pb, 60)] + pre + [(pv, 60)], wd, rewrite=False)
+    base, rr = res_all[0], res_all[-1]
 
     class V:
         cls = r.get("class", "?")
